@@ -20,7 +20,7 @@ ASSUMPTIONS = [
 
 
 def bounds(tier):
-    return {"index": "K in 2..6, d in 1..3, all 5 classes, symbolic (h,i)", "sched": "m <= %d operations" % (3 if tier == "quick" else 5),
+    return {"index": "K in 2..6, d in 1..3, all 5 classes, symbolic (h,i); plus i pinned to L, L+1, L+2 for L just below (2^31, 2^53, 2^63, 2^64)/K and 2^63+5 with every path replayed on the unshimmed code (machine-word landmarks)", "sched": "m <= %d operations" % (3 if tier == "quick" else 5),
             "algo": c01.bounds(tier)["rounds_T"]}
 
 
@@ -31,6 +31,15 @@ def configs(tier, seed):
     for kind in kinds:
         for d in (1, 2, 3):
             out.append({"name": "index-%s-d%d" % (kind, d), "mode": "index", "kind": kind, "d": d, "part": kind})
+    # the label arithmetic at the machine-word landmarks: the solver proves the formula over the mathematical integers; that the
+    # code's integers ARE mathematical integers (Python ints, not int32/int64/float64 values that wrap or round) is validated by
+    # replaying every path of these configurations on the unshimmed code with i pinned just below 2^31, 2^53, 2^63, 2^64
+    for kind in kinds:
+        d = 3 if kind == "DB" else 1
+        K = arity(kind, d)
+        for nm, L in (("2^31", (2 ** 31 - 1) // K), ("2^53", 2 ** 53 // K), ("2^63", (2 ** 63 - 1) // K), ("2^64", 2 ** 64 // K), ("2^63+", 2 ** 63 + 5)):
+            for o in (0, 1, 2):
+                out.append({"name": "index-%s-d%d-i~%s+%d" % (kind, d, nm, o), "mode": "index", "kind": kind, "d": d, "part": kind, "ilo": L + o, "validate_all": True})
     for kind in ["B", "RB", "DB", "K2", "K3", "RK3"] + (["K4", "RK2", "RK4"] if q else []):
         for d in (1, 2):
             if d == 2 and kind not in ("DB", "B"):
@@ -53,20 +62,23 @@ def run_index(ctx, cfg):
     dom = [[0.0, 1.0] for _ in range(d)]
     part = partition_class(kind)(domain=dom)
     K = arity(kind, d)
-    i1 = ctx.int("i", 1)
+    L = cfg.get("ilo")
+    i1 = ctx.int("i", 1) if L is None else ctx.int("i", L, L)
     i2 = ctx.int("i2", 1)
     h = ctx.int("h", 0)
     p1 = part.node(depth=h, index=i1, parent=None, domain=[[0.0, 1.0] for _ in range(d)])
     p2 = part.node(depth=h, index=i2, parent=None, domain=[[0.0, 1.0] for _ in range(d)])
     ctx.call("make_children", part.make_children, p1, newlayer=True)
-    ctx.call("make_children", part.make_children, p2, newlayer=True)
-    c1, c2 = p1.get_children(), p2.get_children()
-    ctx.check("arity", len(c1) == K and len(c2) == K)
+    c1 = p1.get_children()
+    ctx.check("arity", len(c1) == K)
     for j, c in enumerate(c1):
         ctx.check("child_depth", c.get_depth() == h + 1, "child %d depth" % j)
         ctx.check("child_index", c.get_index() == K * (i1 - 1) + j + 1, "child %d of cell i has index %s, expected K(i-1)+%d" % (j, c.get_index(), j + 1))
         ctx.check("child_parent", c.get_parent() is p1)
     # labels of the children of two different parents are disjoint
+    ctx.call("make_children", part.make_children, p2, newlayer=True)
+    c2 = p2.get_children()
+    ctx.check("arity", len(c2) == K)
     ctx.assume(i1 != i2)
     for a in c1:
         for b in c2:
